@@ -958,67 +958,142 @@ func (c *Ctx) runBoxTables(prefix string) {
 		c.problem("AddQuad: the two-triangle split was not recognised")
 		return
 	}
-	for _, s := range []site{{"model3d", "NewMeshRect"}, {"toolbox3d", "RectSet.ExactMesh"}} {
-		fn := c.mustFunc(s.pkg, s.fn)
-		fd, p := c.funcDecl(fn)
-		if fd == nil {
+	// Sites are found by shape, not by name: a function of model3d/toolbox3d (or
+	// the fixture package) that defines a local corner selector
+	//     sel := func(x, y, z int) Coord3D { res := LO; if x == 1 { res.X = HI.X } ...; return res }
+	// and lists quads (AddQuad calls or four-element literals) whose corners are
+	// LO, HI or sel(i, j, k) with constant arguments.
+	type boxSite struct {
+		fd    *ast.FuncDecl
+		p     *packages.Package
+		quads [][4]int
+	}
+	var sites []boxSite
+	for _, p := range []*packages.Package{c.pkg("model3d"), c.pkg("toolbox3d"), c.fixturePkg("b")} {
+		if p == nil {
 			continue
 		}
-		c.analysed(s.pkg + "." + s.fn)
 		info := p.TypesInfo
-		cornerOf := func(e ast.Expr) (int, bool) {
-			switch x := ast.Unparen(e).(type) {
-			case *ast.Ident:
-				switch x.Name {
-				case "min":
-					return 0, true
-				case "max":
-					return 7, true
+		for _, file := range p.Syntax {
+			for _, d := range file.Decls {
+				fd, ok := d.(*ast.FuncDecl)
+				if !ok || fd.Body == nil {
+					continue
 				}
-			case *ast.CallExpr:
-				if id, ok := x.Fun.(*ast.Ident); ok && id.Name == "point" {
-					if a, ok := callArgsInts(info, x); ok && len(a) == 3 {
-						return a[0] | a[1]<<1 | a[2]<<2, true
+				var selObj, loObj, hiObj types.Object
+				ast.Inspect(fd.Body, func(n ast.Node) bool {
+					as, ok := n.(*ast.AssignStmt)
+					if !ok || len(as.Lhs) != 1 || len(as.Rhs) != 1 || selObj != nil {
+						return true
 					}
+					fl, ok := as.Rhs[0].(*ast.FuncLit)
+					if !ok || fl.Type.Params.NumFields() != 3 || fl.Type.Results.NumFields() != 1 || len(fl.Body.List) < 2 {
+						return true
+					}
+					id, ok := as.Lhs[0].(*ast.Ident)
+					if !ok {
+						return true
+					}
+					first, ok := fl.Body.List[0].(*ast.AssignStmt)
+					if !ok || len(first.Lhs) != 1 || len(first.Rhs) != 1 {
+						return true
+					}
+					resID, ok1 := first.Lhs[0].(*ast.Ident)
+					loID, ok2 := ast.Unparen(first.Rhs[0]).(*ast.Ident)
+					if !ok1 || !ok2 || !isCoordType(info.TypeOf(loID)) {
+						return true
+					}
+					resObj := info.Defs[resID]
+					var hi types.Object
+					consistent := true
+					ast.Inspect(fl.Body, func(m ast.Node) bool {
+						a2, ok := m.(*ast.AssignStmt)
+						if !ok || len(a2.Lhs) != 1 || len(a2.Rhs) != 1 {
+							return true
+						}
+						ls, ok1 := a2.Lhs[0].(*ast.SelectorExpr)
+						rs, ok2 := ast.Unparen(a2.Rhs[0]).(*ast.SelectorExpr)
+						if !ok1 || !ok2 {
+							return true
+						}
+						lb, ok1 := ls.X.(*ast.Ident)
+						rb, ok2 := rs.X.(*ast.Ident)
+						if !ok1 || !ok2 || info.Uses[lb] != resObj {
+							return true
+						}
+						if ls.Sel.Name != rs.Sel.Name || (hi != nil && info.Uses[rb] != hi) {
+							consistent = false
+						}
+						hi = info.Uses[rb]
+						return true
+					})
+					if hi == nil || !consistent {
+						return true
+					}
+					selObj, loObj, hiObj = info.Defs[id], info.Uses[loID], hi
+					return true
+				})
+				if selObj == nil {
+					continue
+				}
+				cornerOf := func(e ast.Expr) (int, bool) {
+					switch x := ast.Unparen(e).(type) {
+					case *ast.Ident:
+						switch info.Uses[x] {
+						case loObj:
+							return 0, true
+						case hiObj:
+							return 7, true
+						}
+					case *ast.CallExpr:
+						if id, ok := x.Fun.(*ast.Ident); ok && info.Uses[id] == selObj {
+							if a, ok := callArgsInts(info, x); ok && len(a) == 3 {
+								return a[0] | a[1]<<1 | a[2]<<2, true
+							}
+						}
+					}
+					return 0, false
+				}
+				var quads [][4]int
+				ast.Inspect(fd.Body, func(n ast.Node) bool {
+					var elts []ast.Expr
+					switch x := n.(type) {
+					case *ast.CallExpr:
+						if sel, ok := x.Fun.(*ast.SelectorExpr); ok && sel.Sel.Name == "AddQuad" && len(x.Args) == 4 {
+							elts = x.Args
+						}
+					case *ast.CompositeLit:
+						if len(x.Elts) == 4 {
+							elts = x.Elts
+						}
+					}
+					if len(elts) == 4 {
+						var q [4]int
+						okAll := true
+						for i, a := range elts {
+							k, ok := cornerOf(a)
+							q[i] = k
+							okAll = okAll && ok
+						}
+						if okAll {
+							quads = append(quads, q)
+						}
+					}
+					return true
+				})
+				if len(quads) > 0 {
+					sites = append(sites, boxSite{fd, p, quads})
 				}
 			}
-			return 0, false
 		}
-		var quads [][4]int
-		ast.Inspect(fd.Body, func(n ast.Node) bool {
-			switch x := n.(type) {
-			case *ast.CallExpr:
-				if sel, ok := x.Fun.(*ast.SelectorExpr); ok && sel.Sel.Name == "AddQuad" && len(x.Args) == 4 {
-					var q [4]int
-					okAll := true
-					for i, a := range x.Args {
-						k, ok := cornerOf(a)
-						q[i] = k
-						okAll = okAll && ok
-					}
-					if okAll {
-						quads = append(quads, q)
-					}
-				}
-			case *ast.CompositeLit:
-				if len(x.Elts) == 4 {
-					var q [4]int
-					okAll := true
-					for i, a := range x.Elts {
-						k, ok := cornerOf(a)
-						q[i] = k
-						okAll = okAll && ok
-					}
-					if okAll {
-						quads = append(quads, q)
-					}
-				}
-			}
-			return true
-		})
-		key := s.pkg + "." + s.fn + " box"
+	}
+	for _, st := range sites {
+		fd, quads := st.fd, st.quads
+		name := declName(st.p, fd)
+		c.analysed(name)
+		key := name + " box"
 		if len(quads) != 6 {
-			c.problem("%s: expected six literal quads, found %d", key, len(quads))
+			c.bad(prefix+".BOX", key, fd.Pos(), fmt.Sprintf("a box is listed with %d quads instead of six: the surface is open or doubly covered", len(quads)))
 			continue
 		}
 		cnt := map[[2]int]int{}
